@@ -401,6 +401,7 @@ async def _run(case):
                 await _yield(g)
             if a["t"] == "sub":
                 req = _request(I, a)
+                log.append(["req", req.component_id, req.get_channel_name()])    # the consumer issues the request
                 if actor is not None:
                     await req_sender.send(req)
                 else:
@@ -474,6 +475,7 @@ def run_case(case):
     import async_solipsism
     keep.clear()
     loop = async_solipsism.EventLoop()
+    loop.set_exception_handler(lambda _loop, _ctx: None)   # "exception was never retrieved" reports are not observations
     asyncio.set_event_loop(loop)
     try:
         return loop.run_until_complete(_run(case))
@@ -571,7 +573,7 @@ def to_events(case, obs):
         elif e[0] == "restart":
             ev.append(("Restart", "ONone"))
             i += 1
-        elif e[0] == "close":
+        elif e[0] in ("close", "req"):
             i += 1      # the consumer's own action: no event of the source
         elif e[0] == "dcall":
             if not pending.get(e[1]):
@@ -728,6 +730,12 @@ def oracle(case, obs):
         if e[0] == "add":
             add_pos.setdefault(e[2], p)
     add_failed = {e[2] for e in log if e[0] == "addfail"}      # the API client raised while the request was handled
+    n_req, n_fail = {}, {}
+    for e in log:
+        if e[0] == "req":
+            n_req[e[2]] = n_req.get(e[2], 0) + 1
+        elif e[0] == "addfail":
+            n_fail[e[2]] = n_fail.get(e[2], 0) + 1
     closed_keys = {e[1] for e in log if e[0] == "close"}       # the consumer closed its channel mid-stream
     # requests naming a metric the category has no data for (they must be ignored like unknown ids)
     invalid = {}
@@ -752,6 +760,10 @@ def oracle(case, obs):
         if key not in add_pos:
             if key not in add_failed:
                 out.append({"what": f"request: {d} was never processed", "finding": None})
+            elif n_req.get(key, 0) > n_fail.get(key, 0):
+                # requests are handled in the order they were issued: one issued after the last fault got no answer
+                out.append({"what": f"request: {d} was issued {n_req[key]} times, failed {n_fail[key]} times with an API error and "
+                                    f"was not served when it was sent again after the last failure", "finding": None})
             elif got:
                 out.append({"what": f"fault: request {d} failed with an API error but its stream received samples", "finding": None})
             continue
@@ -1088,8 +1100,17 @@ def gen_fault_case(rng):
             a = S(cid, rng.choice(favs[cid]), rng.choice("ab"))
             acts.append(a)
             served.append(a)
-    if rng.random() < 0.15:
-        fail_calls.append(1)
+    if rng.random() < 0.35:
+        # the component list cannot be read at first: the first j requests fail (the cache stays empty), the actor
+        # restarts each time; the SAME requests are sent again later (during the restart delay or after it)
+        j = rng.choice([1, 1, 2, 3])
+        fail_calls += list(range(1, j + 1))
+        early = [a for a in acts if a["t"] == "sub"][:j]
+        for a in early:
+            acts.append(dict(a, gap=rng.choice([0, 1, -1, -9, -10])))
+            if rng.random() < 0.6:
+                acts.append(M(a["cid"] if a["cid"] in dict(comps) else comps[0][0]))
+        ncomp_calls += len(early)
     case["actions"] = acts
     case["faults"]["components"] = sorted(set(fail_calls))
     if rng.random() < 0.4:
@@ -1116,6 +1137,13 @@ def fault_boundary_cases():
             S(m1), M(-10), S(m1, gap=0), M(-1), M(-4), M(-5), S(m1, gap=0), M(0), S(m2, ns="b", gap=0), M(-1)]})
         out.append({"mode": "direct", "comps": [[cid, cat]], "faults": {"components": [2], "data": {str(cid): [1]}}, "actions": [
             S(m1), M(-1), S(m1, c=99), M(-5), S(m1), M(0), M(-1)]})
+        # the API is unreachable for the first lookups: the first requests fail, the actor restarts, the identical
+        # requests are sent again (right away, during the restart delay, after it), then data
+        for mode in ("actor", "pipeline", "direct"):
+            for nfail in (1, 2):
+                for wait in (0, -1, -9, -12):
+                    out.append({"mode": mode, "comps": [[cid, cat]], "faults": {"components": list(range(1, nfail + 1))}, "actions":
+                                [S(m1), S(m2, ns="b", gap=1)][:max(nfail, 1)] + [S(m1, gap=wait), S(m2, ns="b", gap=0), M(-12), M(0), S(m1, gap=0), M(-1)]})
     return out
 
 
@@ -1304,6 +1332,14 @@ def labels_of(case, obs):
             lab.add("request_after_restart")
     if any(e[0] == "addfail" for e in log):
         lab.add("add_metric_api_fault")
+        failed = {}
+        for j, e in enumerate(log):
+            if e[0] == "addfail":
+                failed[e[2]] = j
+            elif e[0] == "req" and e[2] in failed:
+                lab.add("failed_request_sent_again")
+            elif e[0] == "add" and e[2] in failed and e[1] in cids:
+                lab.add("failed_request_served_on_repeat")
     if any(e[0] == "datafail" for e in log):
         lab.add("handler_api_fault")
     order = {}
@@ -1463,7 +1499,7 @@ def expand_pipeline(case):
             acts.append(dict(reqs[i], gap=(-2 if j == 0 and acts else 0)))
         for cid, _ in POOL[:4]:
             acts.append({"t": "msg", "cid": cid, "gap": -2 if cid == POOL[0][0] else 0})
-    return {"mode": "pipeline", "comps": [list(c) for c in POOL[:4]], "actions": acts}, bursts
+    return {"mode": "pipeline", "comps": [list(c) for c in POOL[:4]], "actions": acts, "debug_log": case.get("debug_log", False)}, bursts
 
 
 class PipelineStream(Stream):
